@@ -27,7 +27,7 @@ vh::Outcome run_tw(const vh::Case& c) {
     rob::deflt()->vrt_reset(false);
     vh::Outcome out;
     bool begun[NL] = {false}, done[NL] = {false};
-    bool lbl_seen_true_concurrent = false, lbl_moved = false, lbl_datum_read = false, lbl_oor = false, lbl_shared_det = false, lbl_handover = false;
+    bool lbl_seen_true_concurrent = false, lbl_moved = false, lbl_datum_read = false, lbl_oor = false, lbl_shared_det = false, lbl_handover = false; int lbl_repeat = 0;
     int triggers_in_flight = 0;
     out.res = vrt::run(c.sched, [&] {
         std::vector<gc::TriplineType> lines = gc::make_triplines(6);
@@ -96,6 +96,13 @@ vh::Outcome run_tw(const vh::Case& c) {
                         triggers_in_flight--; done[l] = true;
                         if (a) { a.reset(); }                                          // variant 2: moved-from destroyed after the trip
                         if (variant == 4) { auto again = make_trigger(l); again.reset(); }
+                        if ((op.a & 4) && (l >= 6 || lines[(size_t)l])) {
+                            // a long history of further triggers on the same line (taken as one chunk): tripped stays tripped "forever"
+                            static const int reps[4] = {254, 255, 256, 511};
+                            int nrep = reps[op.b % 4]; lbl_repeat = std::max(lbl_repeat, nrep);
+                            { vrt::BulkScope bulk; for (int q = 0; q < nrep; ++q) { auto again = make_trigger(l); again.reset(); } }
+                            if (!make_detector(l).isTripped()) vrt::fail("untripped", "a tripped line reports untripped after " + std::to_string(nrep) + " further triggers were destroyed on it");
+                        }
                     } else if (kind <= 6) {
                         // ---------------------------------------------------- detector polling any line
                         int l = op.a % NL;
@@ -142,6 +149,7 @@ vh::Outcome run_tw(const vh::Case& c) {
     if (lbl_oor) out.labels.push_back("out-of-range");
     if (lbl_shared_det) out.labels.push_back("shared-detector-object");
     if (lbl_handover) out.labels.push_back("line-handle-handed-to-trigger");
+    if (lbl_repeat) out.labels.push_back("further-triggers=" + std::to_string(lbl_repeat));
     if (c.sched.weak) out.labels.push_back("weak");
     if (out.res.stale_reads) out.labels.push_back("stale-read-taken");
     out.nontrivial = lbl_datum_read && (lbl_seen_true_concurrent || lbl_moved);
